@@ -41,8 +41,8 @@ ASSUMPTIONS = [
     'inconclusive when more than 5% of cases end that way',
     'root-relative (/x), protocol-relative and scheme-qualified URLs are external and not followed',
 ]
-MIN_NONTRIVIAL = {'quick': 150, 'thorough': 3000}
-N_CASES = {'quick': 480, 'thorough': 9600}
+MIN_NONTRIVIAL = {'quick': 300, 'thorough': 8000}
+N_CASES = {'quick': 960, 'thorough': 24000}
 NSHARDS = 16
 
 F_SINGLE = 'C16-dup-id-single-page-entry'
